@@ -45,6 +45,11 @@ type Obs struct {
 	// Continuation after a failed run.
 	Cont []ContObs `json:"cont,omitempty"`
 
+	// CloseSnaps: one snapshot per quiescent point while App.Close was running.
+	CloseSnaps []CloseSnap `json:"closeSnaps,omitempty"`
+	// CloseReturned: App.Close returned before the run ended.
+	CloseReturned bool `json:"closeReturned,omitempty"`
+
 	// TagRecords: scanner id -> received records.
 	TagRecords map[string][]TagRec `json:"tagRecords,omitempty"`
 
@@ -115,4 +120,13 @@ type Violation struct {
 	Detail string `json:"detail"`
 	// Runs: indices (into the judged run list) of the runs that exhibit the violation.
 	Runs []int `json:"runs,omitempty"`
+}
+
+// CloseSnap is what the scheduler saw at one quiescent point during App.Close.
+type CloseSnap struct {
+	Parked   []string       `json:"parked"`   // closers parked inside their Close()
+	Starting []string       `json:"starting"` // closer goroutines started by App.Close, parked before they invoke the closer
+	Entered  map[string]int `json:"entered"`  // closer id -> number of times its Close() was entered so far
+	Exited   map[string]int `json:"exited"`
+	Returned bool           `json:"returned"` // App.Close has returned
 }
